@@ -82,7 +82,7 @@ def f_circuit(case):
             if getattr(layer, 'forward_map', None) is not None:
                 f = ref.RefClifford(*Bk.read_list(layer.forward_map)); b = ref.RefClifford(*Bk.read_list(layer.backward_map))
                 check(b.key() == f.inverse().key(), 'layer %d backward_map is not the inverse of its forward_map' % li, 'layer-inverse-map')
-    nt = c09._noncommuting_overlap(prog, N) and _odd_or_neg(case['input']) and (cfg[2] != 'none' or be == 'torch')
+    nt = c09._noncommuting_overlap(prog, N) and _odd_or_neg(case['input']) and cfg[2] != 'none'
     return {'nt': nt, 'labels': ['N=%d' % N, 'cfg=' + '/'.join(cfg), 'in=' + case['input']['kind'], 'len=%d' % (5 * (len(prog) // 5))]}
 
 
@@ -115,6 +115,6 @@ FACETS = [
     Facet('np/circuit-configs', f_circuit, strategy=lambda t: c09.st_case('np', 4 if t == 'quick' else 5, 10 if t == 'quick' else 14, c09.CONFIGS),
           examples={'quick': 2000, 'thorough': 80000}, shards={'quick': 4, 'thorough': 16}),
     Facet('torch/gates', f_gate, strategy=lambda t: st_gatecase('torch', 3, ['rot', 'fmap', 'bmap']), examples={'quick': 200, 'thorough': 8000}, backend='torch'),
-    Facet('torch/circuit-uncompiled', f_circuit, strategy=lambda t: c09.st_case_torch(4, 8), examples={'quick': 200, 'thorough': 8000},
+    Facet('torch/circuit-configs', f_circuit, strategy=lambda t: c09.st_case_torch(4, 8), examples={'quick': 200, 'thorough': 8000},
           shards={'quick': 2, 'thorough': 8}, backend='torch'),
 ]
